@@ -22,6 +22,7 @@ Class Num := {
   natan2 : T -> T -> T;   (* natan2 y x, as numpy.arctan2 *)
   npi   : T;
   of_Z  : Z -> T;
+  of_dec : Z -> Z -> T;   (* the decimal literal m * 10^e, correctly rounded *)
   leb   : T -> T -> bool;
   ltb   : T -> T -> bool;
   eqb   : T -> T -> bool;
@@ -40,16 +41,6 @@ Notation "- x" := (opp x) : num_scope.
 Section Derived.
 Context {N : Num}.
 Local Open Scope num_scope.
-
-(* m * 10^e as the code's decimal literals: one correctly-rounded operation on
-   the float instance (exact for |m| < 2^53, |e| <= 22), exact on R. *)
-Definition pow10 (k : nat) : T := of_Z (Z.pow 10 (Z.of_nat k)).
-Definition of_dec (m e : Z) : T :=
-  match e with
-  | Z0 => of_Z m
-  | Zpos p => of_Z m * pow10 (Pos.to_nat p)
-  | Zneg p => of_Z m / pow10 (Pos.to_nat p)
-  end.
 
 Definition two : T := of_Z 2.
 Definition half : T := of_dec 5 (-1).
